@@ -90,7 +90,7 @@ Theorem coeffs_exact_2 c0 c1 (px : list pixelR) :
 Proof.
   intros Hx Hd. unfold coeffsR, coeffs, convC. cbn [hdet] in Hd. unfold det2m in Hd.
   fold momentR. fold inv2R. rewrite inv2_value by exact Hd.
-  cbn [matvec map seq mscale Rops f0 fadd fmul]. fold dmomentR.
+  cbn [matvec map seq Rops f0 fadd fmul]. fold dmomentR.
   rewrite !(dmoment_exact c0 c1 0) by exact Hx. cbn [Nat.add].
   rewrite !dotR2. unfold det2 in *.
   set (p0 := momentR 0 px) in *. set (p1 := momentR 1 px) in *. set (p2 := momentR 2 px) in *.
@@ -101,8 +101,8 @@ Theorem coeffs_exact_3 c0 c1 c2 (px : list pixelR) :
   Forall (exact_px c0 c1 c2) px -> hdet 3 px <> 0 -> coeffsR 3 px = Some [c0; c1; c2].
 Proof.
   intros Hx Hd. unfold coeffsR, coeffs, convC. cbn [hdet] in Hd. unfold det3m in Hd.
-  fold momentR. fold inv3R. rewrite inv3_value by exact Hd.
-  cbn [matvec map seq mscale Rops f0 fadd fmul]. fold dmomentR.
+  fold momentR. fold inv3R. rewrite inv3_value by exact Hd. cbv zeta.
+  cbn [matvec map seq Rops f0 fadd fmul]. fold dmomentR.
   rewrite !(dmoment_exact c0 c1 c2) by exact Hx. cbn [Nat.add].
   rewrite !dotR3. unfold det3 in *.
   set (p0 := momentR 0 px) in *. set (p1 := momentR 1 px) in *. set (p2 := momentR 2 px) in *.
